@@ -90,7 +90,7 @@ impl Scenario for Pairs {
             2 => Style::Chords,
             _ => Style::Unknown,
         };
-        let p = TypistParams { style, actions: marathon(run, rng.range(6, if tier == Tier::Quick { 60 } else { 150 }) as usize), stratum };
+        let p = TypistParams { style, actions: if is_endurance(run) { rng.range(400_000, 450_000) as usize } else { marathon(run, rng.range(6, if tier == Tier::Quick { 60 } else { 150 }) as usize) }, stratum };
         let mut ops = type_session(rng, &cfg, &p);
         // a table-free keyboard also has the keys 00 and AA
         if cfg.set == 2 && rng.chance(1, 4) {
@@ -430,7 +430,7 @@ impl Scenario for Dual {
         let (fp, fc, fb) = ((f / 258) as u8, codes[(f / 2) % 129], f % 2 == 1);
         let stratum = (fp, fc / 16);
         let style = STYLES[((run / 7) % STYLES.len() as u64) as usize];
-        let p = TypistParams { style, actions: marathon(run, rng.range(6, if tier == Tier::Quick { 60 } else { 150 }) as usize), stratum };
+        let p = TypistParams { style, actions: if is_endurance(run) { rng.range(400_000, 450_000) as usize } else { marathon(run, rng.range(6, if tier == Tier::Quick { 60 } else { 150 }) as usize) }, stratum };
         let mut ops = type_session(rng, &cfg, &p);
         ops.retain(|o| matches!(o.op, Op::Key { code, .. } if c13_domain(code)));
         let pos = rng.below(ops.len() as u64 + 1) as usize;
@@ -609,7 +609,21 @@ impl Scenario for Dual {
             env.cov.api_calls += (b1.len() + b2.len()) as u64;
             env.cov.evaluations += 1;
             let (sa, sb) = (settled(&la), settled(&lb));
-            if let Some(j) = lists_disagree(&sa, &sb) {
+            // "Set 2 does not know this code" excuses a Set 2 error only if Set 2 really does not
+            // know it: if the same bytes on their own decode to the very event host B reports,
+            // host A's error in the stream is a disagreement about a key both sets can express
+            let mut stream_dis = lists_disagree(&sa, &sb);
+            if stream_dis.is_none() {
+                for (j, (x, y)) in sa.iter().zip(sb.iter()).enumerate() {
+                    if let (Res::Err(_), Res::Ev(..)) = (x, y) {
+                        if s2.get(j) == Some(y) {
+                            stream_dis = Some(j);
+                            break;
+                        }
+                    }
+                }
+            }
+            if let Some(j) = stream_dis {
                 let sig = format!(
                     "c13/{}/{:02X}/{}{}/set2={}/set1={}",
                     ctxname,
